@@ -837,7 +837,7 @@ def rank_models(
             if not lrt_test(parent_model, model, parent_ofv, model_ofv, co):
                 continue
         elif cutoff is not None:
-            if ref_value - rank_value <= cutoff:
+            if ref_value - rank_value < cutoff:
                 continue
 
         # Add ranking value and model
